@@ -58,6 +58,8 @@ def tasks_for(pid, tier):
             for op in ops:
                 if (op in ops_c13) != (pid == 'C13'):
                     continue
+                if backend == 'generic' and op in V.X86_ONLY_OPS:
+                    continue    # the portable backend declares no conversions between its vector types
                 idxs = range(V.nelems(ty)) if op in (40, 41) else [0]
                 for i in idxs:
                     out.append((pid, backend, ty, op, i, False))
@@ -80,7 +82,7 @@ def body_for(pid):
         # canary: a reference with a wrong rotation count / wrong lane order must be refuted
         canary(run, pid)
         run.bounds = {'operands': 'all values (512 symbolic bits per operand)', 'element index': 'every valid index (enumerated)',
-                      'grid': '%d (backend, type, operation, index, profile) points: 6 backends x 10 vector types x the operations the Machine trait bounds require' % len(ts),
+                      'grid': '%d (backend, type, operation, index, profile) points: 6 backends x 10 vector types x the operations the Machine trait bounds require, plus the u128xN -> u32x4xN / u64x2xN From conversions of the 5 x86 machines' % len(ts),
                       'outside': 'operations not reachable through the Machine trait bounds (e.g. u128x1 bswap)'}
         run.assumptions += ['a vector value is identified with its little-endian storage bytes (From<[u32;4]> / new128 / unpack in, Into<storage> / split128 out)',
                             'word permutation names: shuffle1230 = [x3,x0,x1,x2], shuffle2301 = [x2,x3,x0,x1], shuffle3012 = [x1,x2,x3,x0] (the reading under which ChaCha/BLAKE conform, C01/C04)',
